@@ -232,7 +232,10 @@ class TrajectoryConstraintsRemover(engines.engine.Engine, CompilerMixin):
             new_problem.add_action(action)
         for init_val in I_prime:
             new_problem.set_initial_value(
-                up.model.Fluent(f"{init_val}", env.type_manager.BoolType()), True
+                up.model.Fluent(
+                    f"{init_val}", env.type_manager.BoolType(), environment=env
+                ),
+                True,
             )
 
         new_problem.clear_quality_metrics()
@@ -377,6 +380,7 @@ class TrajectoryConstraintsRemover(engines.engine.Engine, CompilerMixin):
                 fluent = up.model.Fluent(
                     f"{type}{SEPARATOR}{monitoring_atoms_counter}",
                     env.type_manager.BoolType(),
+                    environment=env,
                 )
                 monitoring_atoms.append(fluent)
                 monitoring_atom = env.expression_manager.FluentExp(fluent)
